@@ -617,4 +617,143 @@ Section Norm.
   Proof.
     unfold objs1. rewrite map_map. cbn [fx_norm_obj fst]. exact (map_f_written g roots Hc).
   Qed.
+
+  Lemma fxs_in1 : forall k i1, In (k, i1) objs1 ->
+    exists id i, In id Wd /\ find_obj objs id = Some i /\ In (id, i) objs /\ k = rho id
+                 /\ i1 = {| i_val := fx_norm_val d i; i_stream := i_stream i |}.
+  Proof.
+    intros k i1 H. unfold objs1 in H. apply in_map_iff in H. destruct H as [id [He Hin]].
+    destruct (written_find_obj d id Hc Hin) as [i Hi]. exists id, i.
+    unfold fx_norm_obj in He. rewrite Hi in He. inversion He. fold objs in Hi.
+    repeat split; try assumption; try reflexivity. apply fxs_find_in. exact Hi.
+  Qed.
+
+  Lemma fxs_obj_refs : forall id i, In id Wd -> find_obj objs id = Some i ->
+    forall y, In y (refs_of objs (match i_stream i with Some _ => drop_length (i_val i) | None => i_val i end)) -> In y Wd.
+  Proof.
+    intros id i Hin Hi y Hy. apply (fxs_children_in id y Hin). unfold g.
+    destruct (i_stream i) as [data|] eqn:Es.
+    - rewrite (children_graph_of_stream d id i data Hi Es). exact Hy.
+    - rewrite (children_graph_of d id i Hi Es). exact Hy.
+  Qed.
+
+  Lemma fx_filter_flat : forall (A : Type) (f : A -> bool) l, filter f l = flat_map (fun x => if f x then [x] else []) l.
+  Proof. intros A f. induction l as [|a l IH]; [reflexivity|]. cbn [filter flat_map]. destruct (f a); cbn [app]; rewrite IH; reflexivity. Qed.
+
+  Lemma fxs_l_nodup : forall dd, NoDup (map fst dd) -> NoDup (map fst (fxs_l dd)).
+  Proof.
+    intros dd H. unfold fxs_l. apply (proj2 (fx_sub_keys _ (fx_rn_entry_shape objs rho) _)).
+    rewrite fx_filter_flat. refine (proj2 (fx_sub_keys _ _ dd) H).
+    intros kv. destruct (negb (beqb (fst kv) k_Length)); [right; exists (snd kv); destruct kv; reflexivity | left; reflexivity].
+  Qed.
+
+  Lemma fxs_wf_objs1 : wf_doc_objs (fx_norm d).
+  Proof.
+    unfold wf_doc_objs. cbn [fx_norm d_objects]. fold g roots Wd objs1. rewrite Forall_forall. intros [k i1] Hin.
+    destruct (fxs_in1 k i1 Hin) as [id [i [Hid [Hi [Hio [-> ->]]]]]]. cbn [snd i_val].
+    pose proof (wfd_objs d W) as Hw. unfold wf_doc_objs in Hw. rewrite Forall_forall in Hw. specialize (Hw (id, i) Hio). cbn [snd] in Hw.
+    destruct (i_stream i) as [data|] eqn:Es.
+    - destruct (wfd_streams d W id i Hio) as [dd Hv]; [rewrite Es; discriminate|].
+      destruct (fxs_stream_val i data dd Es Hv) as [H1 [H2 _]]. rewrite H2. apply wf_dict. apply Forall_app. split.
+      + apply wf_dict. rewrite <- H1. apply fx_wf_rn. apply fx_wf_drop_length. exact Hw.
+      + constructor; [|constructor]. split; [exact fx_wf_len_key | exact I].
+    - unfold fx_norm_val. rewrite Es. apply fx_wf_rn. exact Hw.
+  Qed.
+
+  Lemma fxs_wf_trailer1 : wf_wobj (ODict (d_trailer (fx_norm d))).
+  Proof.
+    cbn [fx_norm d_trailer]. apply wf_dict. rewrite Forall_forall. intros kv' Hin. apply in_flat_map in Hin.
+    destruct Hin as [kv [Hkv Hin]]. pose proof (wfd_trailer d W) as Hw. apply wf_dict in Hw. rewrite Forall_forall in Hw.
+    destruct (Hw kv Hkv) as [Hk Hv]. unfold fx_norm_entry in Hin.
+    destruct (is_null_val (d_objects d) (snd kv) || fx_owned (fst kv)); [destruct Hin|]. destruct Hin as [<-|[]]. cbn [fst snd].
+    split; [exact Hk|]. destruct (beqb (fst kv) k_Size); [exact I | apply fx_wf_rn; exact Hv].
+  Qed.
+
+  Lemma fxs_keys_trailer1 : forall k, In k (map fst (d_trailer (fx_norm d))) -> In k (map fst (d_trailer d)).
+  Proof. exact (proj1 (fx_sub_keys _ (fx_norm_entry_shape d) (d_trailer d))). Qed.
+
+  Lemma fxs_dict_nodup1 : forall k i1 dd, In (k, i1) objs1 -> i_val i1 = ODict dd -> NoDup (map fst dd).
+  Proof.
+    intros k i1 dd1 Hin Hv1. destruct (fxs_in1 k i1 Hin) as [id [i [Hid [Hi [Hio [-> ->]]]]]]. cbn [i_val] in Hv1.
+    destruct (wfd_keys_nodup d W) as [_ [_ Hdn]].
+    destruct (i_stream i) as [data|] eqn:Es.
+    - destruct (wfd_streams d W id i Hio) as [dd Hv]; [rewrite Es; discriminate|].
+      destruct (fxs_stream_val i data dd Es Hv) as [_ [H2 [H3 _]]]. rewrite H2 in Hv1. injection Hv1 as <-.
+      rewrite map_app. cbn [map fx_len_entry fst]. apply fx_nodup_snoc; [apply fxs_l_nodup; exact (Hdn id i dd Hio Hv)|].
+      intros H. apply in_map_iff in H. destruct H as [kv [Hk Hkv]]. rewrite Forall_forall in H3. specialize (H3 kv Hkv).
+      rewrite Hk in H3. discriminate H3.
+    - unfold fx_norm_val in Hv1. rewrite Es in Hv1. fold objs rho in Hv1.
+      destruct (i_val i) as [| | | | | | |dd|] eqn:Ev; try discriminate Hv1.
+      rewrite fx_rn_dict in Hv1. injection Hv1 as <-.
+      apply (proj2 (fx_sub_keys _ (fx_rn_entry_shape objs rho) dd)). exact (Hdn id i dd Hio Ev).
+  Qed.
+
+  Lemma fxs_wf1 : wf_doc (fx_norm d).
+  Proof.
+    destruct (wfd_root d W) as [r [ir [Hroot [Hfr Hnn]]]].
+    destruct (wfd_size d W) as [zs Hsize].
+    destruct (wfd_keys_nodup d W) as [Hnd [Hnoid _]].
+    assert (Hr : In r Wd) by (apply (roots_written d r Hc); apply root_in_roots; exact Hroot).
+    constructor.
+    - exact fxs_closed1.
+    - exact fxs_wf_objs1.
+    - exact fxs_wf_trailer1.
+    - intros k i1 Hin Hs. cbn [fx_norm d_objects] in Hin. destruct (fxs_in1 k i1 Hin) as [id [i [Hid [Hi [Hio [-> ->]]]]]].
+      cbn [i_stream i_val] in *. destruct (i_stream i) as [data|] eqn:Es; [|exfalso; apply Hs; reflexivity].
+      destruct (wfd_streams d W id i Hio) as [dd Hv]; [rewrite Es; discriminate|].
+      destruct (fxs_stream_val i data dd Es Hv) as [_ [H2 _]]. eexists. exact H2.
+    - intros k i1 data Hin Hs. cbn [fx_norm d_objects] in Hin. destruct (fxs_in1 k i1 Hin) as [id [i [Hid [Hi [Hio [-> ->]]]]]].
+      cbn [i_stream] in Hs. exact (wfd_stream_bytes d W id i data Hio Hs).
+    - exact (wfd_version d W).
+    - cbn [fx_norm d_id1 d_id2].
+      assert (Hst : Forall (fun b => b < 256) static_id) by (repeat constructor).
+      split; [|exact Hst]. unfold generate_id1. destruct (d_id1 d) eqn:E; [exact Hst|]. rewrite <- E. exact (proj1 (wfd_ids d W)).
+    - exists (rho r), (snd (fx_norm_obj d r)). cbn [fx_norm d_trailer d_objects]. fold g roots Wd objs1. split; [|split].
+      + rewrite (fxs_find_norm k_Root (ORef r) eq_refl _ Hroot Hnn). reflexivity.
+      + exact (fxs_find1 r Hr).
+      + apply (fxs_nonnull1 (ORef r) Hnn). intros id Hid. injection Hid as <-. exact Hr.
+    - eexists. cbn [fx_norm d_trailer]. rewrite (fxs_find_norm k_Size (OInt zs) eq_refl _ Hsize eq_refl). reflexivity.
+    - split; [|split].
+      + exact (proj2 (fx_sub_keys _ (fx_norm_entry_shape d) (d_trailer d)) Hnd).
+      + intros H. apply Hnoid. exact (fxs_keys_trailer1 _ H).
+      + intros k i1 dd Hin Hv. exact (fxs_dict_nodup1 k i1 dd Hin Hv).
+    - intros H. apply (wfd_no_prev d W). exact (fxs_keys_trailer1 _ H).
+    - intros H. apply (wfd_no_xrefstm d W). exact (fxs_keys_trailer1 _ H).
+  Qed.
+
+  Lemma fxs_normal1 : fx_normal (fx_norm d).
+  Proof.
+    destruct (wfd_size d W) as [zs Hsize].
+    assert (Hlen : length (d_objects (fx_norm d)) = length Wd) by (cbn [fx_norm d_objects]; apply map_length).
+    constructor.
+    - exact fxs_wf1.
+    - rewrite Hlen. exact fxs_keys1.
+    - rewrite Hlen. exact fxs_written1.
+    - intros k i1 Hin. cbn [fx_norm d_objects] in *. fold g roots Wd objs1 in Hin |- *.
+      destruct (fxs_in1 k i1 Hin) as [id [i [Hid [Hi [Hio [-> ->]]]]]]. cbn [i_val].
+      pose proof (fxs_obj_refs id i Hid Hi) as Hr.
+      destruct (i_stream i) as [data|] eqn:Es.
+      + destruct (wfd_streams d W id i Hio) as [dd Hv]; [rewrite Es; discriminate|].
+        destruct (fxs_stream_val i data dd Es Hv) as [H1 [H2 _]]. rewrite H2. cbn [fx_nonull]. rewrite forallb_app.
+        pose proof (proj2 (fxs_refs1 _ Hr)) as Hn. rewrite H1 in Hn. cbn [fx_nonull] in Hn. rewrite Hn. reflexivity.
+      + unfold fx_norm_val. rewrite Es. exact (proj2 (fxs_refs1 _ Hr)).
+    - intros k i1 data Hin Hs. cbn [fx_norm d_objects] in Hin.
+      destruct (fxs_in1 k i1 Hin) as [id [i [Hid [Hi [Hio [-> ->]]]]]]. cbn [i_val i_stream] in *.
+      destruct (wfd_streams d W id i Hio) as [dd Hv]; [rewrite Hs; discriminate|].
+      destruct (fxs_stream_val i data dd Hs Hv) as [_ [H2 [H3 _]]]. exists (fxs_l dd). split; assumption.
+    - cbn [fx_norm d_objects d_trailer fx_nonull]. fold g roots Wd objs1. rewrite forallb_forall. intros kv' Hin.
+      apply in_flat_map in Hin. destruct Hin as [kv [Hkv Hin]]. unfold fx_norm_entry in Hin. fold objs in Hin.
+      destruct (is_null_val objs (snd kv)) eqn:En; [destruct Hin|]. cbn [orb] in Hin.
+      destruct (fx_owned (fst kv)); [destruct Hin|]. destruct Hin as [<-|[]]. cbn [fst snd].
+      destruct (beqb (fst kv) k_Size); [reflexivity|]. fold rho.
+      assert (Hr : forall y, In y (refs_of objs (snd kv)) -> In y Wd) by (intros y Hy; exact (fxs_trailer_refs_written kv y Hkv En Hy)).
+      rewrite fxs_nonnull1; [exact (proj2 (fxs_refs1 _ Hr)) | exact En |].
+      intros id Hid. apply Hr. rewrite Hid. left. reflexivity.
+    - cbn [fx_norm d_trailer]. rewrite Forall_forall. intros kv' Hin. apply in_flat_map in Hin. destruct Hin as [kv [Hkv Hin]].
+      unfold fx_norm_entry in Hin. destruct (is_null_val (d_objects d) (snd kv) || fx_owned (fst kv)) eqn:E; [destruct Hin|].
+      destruct Hin as [<-|[]]. cbn [fst]. apply orb_false_elim in E. exact (proj2 E).
+    - rewrite Hlen. cbn [fx_norm d_trailer]. rewrite (fxs_find_norm k_Size (OInt zs) eq_refl _ Hsize eq_refl). reflexivity.
+    - reflexivity.
+    - cbn [fx_norm d_id1]. unfold generate_id1. destruct (d_id1 d); discriminate.
+  Qed.
 End Norm.
